@@ -5,10 +5,24 @@ def m(name, rule, key, file, old, new):
     return dict(name=name, kind='mutant', rule=rule, key=key, edits=[dict(file=file, old=old, new=new)])
 
 CASES = [
-    m('untimed-join-after-terminate', 'R4', 'timeout:single-timed-join', TO,
+    m('terminate-until-dead', 'R4', 'timeout()[never-dies]', TO,
+      "        target_thread.terminate()\n",
+      "        while target_thread.is_alive():\n            target_thread.terminate()\n            target_thread.join(0.05)\n"),
+    m('untimed-join-after-raise-exception', 'R4', 'timeout()[', TO,
       "        target_thread.terminate()\n", "        target_thread.terminate()\n        target_thread.join()\n"),
-    m('join-without-duration', 'R4', 'timeout:single-timed-join', TO, "    target_thread.join(duration)", "    target_thread.join()"),
-    m('alive-thread-not-reported', 'R4', 'timeout:raises-when-alive', TO, "        raise timeout_exception\n    else:", "        return None\n    else:"),
+    dict(name='twin-terminate-retried-three-times', kind='twin', edits=[dict(file=TO,
+         old="        target_thread.terminate()\n",
+         new="        for _attempt in range(3):\n            if not target_thread.is_alive():\n                break\n            target_thread.terminate()\n            target_thread.join(0.01)\n")]),
+    dict(name='twin-short-grace-sleep-after-terminate', kind='twin', edits=[dict(file=TO,
+         old="        target_thread.terminate()\n",
+         new="        target_thread.terminate()\n        target_thread.join(0.01)\n")]),
+    dict(name='twin-alive-flag-in-variable', kind='twin', edits=[dict(file=TO,
+         old="    if target_thread.is_alive():\n        target_thread.terminate()\n",
+         new="    still_running = target_thread.is_alive()\n    if still_running:\n        target_thread.terminate()\n")]),
+    m('untimed-join-after-terminate', 'R4', 'timeout()[', TO,
+      "        target_thread.terminate()\n", "        target_thread.terminate()\n        target_thread.join()\n"),
+    m('join-without-duration', 'R4', 'timeout()[', TO, "    target_thread.join(duration)", "    target_thread.join()"),
+    m('alive-thread-not-reported', 'R4', 'timeout()[', TO, "        raise timeout_exception\n    else:", "        return None\n    else:"),
     m('thread-not-daemon', 'R4', 'thread:daemon', TO, "        self.daemon = True\n", "        self.daemon = False\n"),
     m('terminate-injects-keyboardinterrupt', 'R4', 'thread:injects-SystemExit', TO, "        self.raise_exception(SystemExit)", "        self.raise_exception(KeyboardInterrupt)"),
     m('timeout-arm-swallowed', 'R1', 'roles:grader-arm', SB, "        except TimeoutError as timeout_exception:", "        except RuntimeError as timeout_exception:"),
